@@ -1,6 +1,8 @@
 import PqlModel.Props.C12
 import PqlModel.Props.C12Fuel
 import PqlModel.Props.C13Exact
+import PqlModel.Props.C10SpanIR
+import PqlModel.Props.C11WalkIR
 #print axioms Pql.C12.C12_scan_progress
 #print axioms Pql.C12.C12_scan_length_le
 #print axioms Pql.C12.C12_split_shorter
@@ -10,3 +12,5 @@ import PqlModel.Props.C13Exact
 #print axioms Pql.C12.C12_expr_fuel_bound
 #print axioms Pql.C12.C12_expr_fuel_slope_tight
 #print axioms Pql.C13.C13_exact_source
+#print axioms Pql.AstIR.C12_asQualified_ir
+#print axioms Pql.AstIR.C11_walk_ir
